@@ -423,7 +423,8 @@ prop("C07", modules=["SasLexer.Properties.C07"], theorems=["SasLexer.C07_hex_dec
      variants=["rel", "dev-sep", "dev"])
 prop("C08", modules=["SasLexer.Properties.C08"], theorems=["SasLexer.C08_decimal_integer", "SasLexer.C08_hex_integer"],
      variants=["rel", "dev-sep", "dev"])
-prop("C10", modules=["SasLexer.Properties.C10"], theorems=["SasLexer.C10_builtins_expect_lparen", "SasLexer.builtins_expect_lparen_sep"],
+prop("C10", modules=["SasLexer.Properties.C10"], theorems=["SasLexer.C10_builtins_expect_lparen", "SasLexer.builtins_expect_lparen_sep",
+                                                            "SasLexer.C10_model_closers", "SasLexer.finalizeLexing_closers", "SasLexer.fwp_sound", "SasLexer.finalizeLoop_fwp", "SasLexer.Rep.step"],
      variants=["rel", "dev-sep", "dev"])
 prop("C11", modules=["SasLexer.Properties.C11"], theorems=[],
      variants=["rel", "dev", "rel-sep"])
